@@ -108,6 +108,7 @@ def gen_case(rng, tier):
         def_of = list(range(len(regs)))
     return {'names': names, 'dirs': dirs, 'regs': regs, 'def_of': def_of, 'links': links,
             'nested': nested,
+            'decoy': rng.choice([0, 1, 2, 7, 12]) if rng.random() < 0.3 else None,
             'spell': rng.choice([None, None, None, '//', '/./']),
             'same_tag': rng.random() < 0.25,
             'depth': rng.choice([0, 1, 2, 3, 7, 7, 9]),
@@ -205,6 +206,14 @@ def run_impl(case):
         # distinct searches: each is run on every file it is registered for
         defs = [SearchDef(r'.*', tag='t0' if case.get('same_tag') else f't{i}')
                 for i in range(len(case['regs']))]
+        if case.get('decoy') is not None:
+            # ANOTHER searcher of the same process registered the same paths earlier, with
+            # another depth: what it saw must not leak into this one
+            decoy = FileSearcher(max_logrotate_depth=case['decoy'])
+            for i, r in enumerate(case['regs']):
+                dpath = dsp if r['form'] == 'dir' else \
+                    os.path.join(dsp, r['name'] if r['form'] == 'file' else r['pattern'])
+                decoy.add(SearchDef(r'.*', tag='decoy'), dpath)
         fs = FileSearcher(max_logrotate_depth=case['depth'])
         regs_out = []
         for i, r in enumerate(case['regs']):
